@@ -7,7 +7,7 @@ import operator
 from typing import Any, Optional
 
 from .absval import (
-    BoundV, CharSet, ClassV, EnumV, FuncV, HObj, IntSet, LambdaV, Opaque, Ref, SeqStr, Text, Unknown, is_concrete, new_text,
+    BoundV, CharSet, ClassV, EnumV, FuncV, HObj, IntSet, LambdaV, OneOf, Opaque, Ref, SeqStr, Text, Unknown, is_concrete, new_text,
 )
 
 BUILTIN_NAMES = {
@@ -158,6 +158,8 @@ def truth(I, v: Any, st) -> Optional[bool]:
     if isinstance(v, Ref):
         h = st.obj(v)
         if h.kind in ("list", "set"):
+            if h.cls == "textwords":
+                return None
             if h.setlike and not h.items:
                 return False
             return len(h.items) > 0
@@ -198,6 +200,8 @@ def compare(I, op, l: Any, r: Any, st, lexpr=None, rexpr=None) -> list:
         return [((not b) if neg else b, s) for b, s in res]
     fn = _CMP.get(type(op))
     if fn is None:
+        return _fork(st)
+    if any(isinstance(x, Unknown) and x.why.startswith("len:") for x in (l, r)):
         return _fork(st)
     # split set-valued operands
     if isinstance(l, (CharSet, IntSet)) and is_concrete(r):
@@ -240,10 +244,20 @@ def _split(I, sv: Any, pred, st, expr) -> list:
 
 
 def _equal(I, l: Any, r: Any, st, lexpr, rexpr) -> list:
+    for side, expr, other in ((l, lexpr, r), (r, rexpr, l)):
+        if isinstance(side, OneOf):
+            out = []
+            for i, a in enumerate(side.alts):
+                s2 = st if i == len(side.alts) - 1 else st.fork()
+                I.refine(s2, expr, a)
+                out.extend(_equal(I, a, other, s2, None, None) if side is l else _equal(I, other, a, s2, None, None))
+            return out
     if isinstance(l, (CharSet, IntSet)) and is_concrete(r):
         return _split(I, l, lambda x: x == r, st, lexpr)
     if isinstance(r, (CharSet, IntSet)) and is_concrete(l):
         return _split(I, r, lambda x: x == l, st, rexpr)
+    if any(isinstance(x, Unknown) and x.why.startswith("len:") for x in (l, r)):
+        return _fork(st)
     if is_concrete(l) and is_concrete(r):
         return [(l == r and type(l) is type(r) or (l == r and not isinstance(l, bool) and not isinstance(r, bool)), st)]
     if isinstance(l, Ref) and isinstance(r, Ref):
@@ -356,7 +370,7 @@ def binop(I, op, l: Any, r: Any, st, node=None) -> list:
         dr = _as_dict(r, st)
         if dl is not None and dr is not None:
             d = dict(dl)
-            d.update(dr)
+            dict_merge(d, dr)
             return [(st.alloc(HObj("dict", fields=d)), st)]
         if isinstance(l, frozenset) and isinstance(r, frozenset):
             return [(l | r, st)]
@@ -387,6 +401,19 @@ def binop(I, op, l: Any, r: Any, st, node=None) -> list:
         return [(Opaque("binop"), st)]
     st.note(f"binary operator {type(op).__name__} on {type(l).__name__}/{type(r).__name__}")
     return [(Unknown("binop"), st)]
+
+
+def dict_merge(dst: dict, src: dict) -> None:
+    """dst.update(src), except that summarised (abstract-key) pairs are unioned."""
+    for k, v in src.items():
+        if k == "__abstract__":
+            pairs = list(dst.get("__abstract__", []))
+            for a, b in v:
+                if not any(_same(a, x) and _same(b, y) for x, y in pairs):
+                    pairs.append((a, b))
+            dst["__abstract__"] = pairs
+        else:
+            dst[k] = v
 
 
 def _as_dict(v: Any, st) -> Optional[dict]:
@@ -436,6 +463,8 @@ def index_(I, base: Any, idx: Any, st, node=None) -> list:
                 # abstract key: any value or missing
                 st.note("dict lookup with abstract key")
                 return [(Unknown("dict[abstract]"), st)]
+        if h.kind == "list" and h.cls == "textwords":
+            return [(h.items[0], st)]
         if h.kind == "list" and isinstance(idx, int) and not isinstance(idx, bool):
             if h.setlike:
                 st.note("index into summarised list")
@@ -447,7 +476,12 @@ def index_(I, base: Any, idx: Any, st, node=None) -> list:
     if isinstance(base, Text):
         return [(new_text(base.labels, base.kind + "[i]"), st)]
     if isinstance(base, Opaque):
-        return [(Opaque(base.cls + "[]"), st)]
+        hook = I.probes.get("index:*")
+        if hook:
+            r = hook(I, base, idx, st, node)
+            if r is not None:
+                return r
+        return [(Opaque(base.cls + "[]", base.tag), st)]
     if isinstance(base, ClassV) or isinstance(base, BoundV):
         return [(base, st)]  # typing subscript  list[int] / Final[...]
     st.note(f"index into {type(base).__name__}")
@@ -456,6 +490,9 @@ def index_(I, base: Any, idx: Any, st, node=None) -> list:
 
 def slice_(I, base: Any, bounds: tuple, st, node=None) -> list:
     lo, hi, step = bounds
+    if isinstance(base, Ref) and st.obj(base).cls == "textwords":
+        h = st.obj(base)
+        return [(st.alloc(HObj("list", cls="textwords", items=list(h.items), setlike=True)), st)]
     if all(b is None or (isinstance(b, int) and not isinstance(b, bool)) for b in bounds):
         sl = slice(lo, hi, step)
         if isinstance(base, (str, tuple)):
@@ -469,7 +506,7 @@ def slice_(I, base: Any, bounds: tuple, st, node=None) -> list:
         return [(new_text(base.labels, base.kind), st)]
     if isinstance(base, Ref) and st.obj(base).kind == "list":
         h = st.obj(base)
-        return [(st.alloc(HObj("list", items=list(h.items), setlike=True)), st)]
+        return [(st.alloc(HObj("list", cls=h.cls, items=list(h.items), setlike=True)), st)]
     if isinstance(base, Opaque):
         return [(Opaque(base.cls + "[:]"), st)]
     st.note(f"slice of {type(base).__name__}")
@@ -600,6 +637,15 @@ def init_dataclass(I, ci, ref: Ref, args: list, kwargs: dict, st) -> list:
 def getattr_(I, v: Any, name: str, st, node=None) -> list:
     from .absint import ModuleV
 
+    if isinstance(v, OneOf):
+        out = []
+        for i, a in enumerate(v.alts):
+            s2 = st if i == len(v.alts) - 1 else st.fork()
+            if node is not None and isinstance(node, ast.Attribute):
+                I.refine(s2, node.value, a)
+            out.extend(getattr_(I, a, name, s2, node))
+        return out
+
     if isinstance(v, Ref):
         h = st.obj(v)
         if h.kind == "obj":
@@ -661,7 +707,7 @@ def getattr_(I, v: Any, name: str, st, node=None) -> list:
                     return I.call_func(m.qualname, [v], {}, st, node)
                 return [(BoundV(v, name, m.qualname), st)]
     if isinstance(v, Opaque):
-        hook = I.probes.get("getattr:" + v.cls)
+        hook = I.probes.get("getattr:" + v.cls) or I.probes.get("getattr:*")
         if hook:
             r = hook(I, v, name, st, node)
             if r is not None:
@@ -725,6 +771,8 @@ def call_builtin(I, fv: BoundV, args: list, kwargs: dict, st, node=None) -> list
                 if h.kind == "set":
                     h.items = dedupe(h.items)
                 return [(None, st)]
+            if name == "pop" and h.cls == "textwords":
+                return [(h.items[0], st)]
             if name == "pop":
                 if h.setlike:
                     st.note("pop from summarised list")
@@ -773,7 +821,7 @@ def call_builtin(I, fv: BoundV, args: list, kwargs: dict, st, node=None) -> list
             if name == "update" and args:
                 d = _as_dict(args[0], st)
                 if d is not None:
-                    h.fields.update(d)
+                    dict_merge(h.fields, d)
                     return [(None, st)]
             if name == "setdefault":
                 return [(h.fields.setdefault(args[0], args[1] if len(args) > 1 else None), st)]
@@ -823,7 +871,7 @@ def call_builtin(I, fv: BoundV, args: list, kwargs: dict, st, node=None) -> list
     if isinstance(recv, Text):
         return text_method(I, recv, name, args, kwargs, st)
     if isinstance(recv, Opaque):
-        hook = I.probes.get("method:" + recv.cls.split(".")[0]) or I.probes.get("method:" + recv.cls)
+        hook = I.probes.get("method:" + recv.cls.split(".")[0]) or I.probes.get("method:" + recv.cls) or I.probes.get("method:*")
         if hook:
             r = hook(I, recv, name, args, kwargs, st, node)
             if r is not None:
@@ -928,8 +976,8 @@ def text_method(I, t: Text, name: str, args: list, kwargs: dict, st) -> list:
         nt = new_text(t.labels | text_labels(list(args)), t.kind)
         st.meta.setdefault("derived", {})[nt.tid] = (t.tid, name, tuple(a if is_concrete(a) else repr(a) for a in args))
         return [(nt, st)]
-    if name in ("split", "splitlines"):
-        return [(st.alloc(HObj("list", items=[new_text(t.labels, t.kind + ".word")], setlike=True)), st)]
+    if name in ("split", "splitlines", "rsplit"):
+        return [(st.alloc(HObj("list", cls="textwords", items=[new_text(t.labels, t.kind)], setlike=True)), st)]
     if name in ("startswith", "endswith", "isdigit", "isalpha", "isalnum", "islower", "isupper"):
         key = (t.tid, name, tuple(a if is_concrete(a) else repr(a) for a in args))
         if key in st.facts:
@@ -954,6 +1002,8 @@ def b_len(I, args, kwargs, st, node):
         return [(1, st)]
     if isinstance(v, Ref):
         h = st.obj(v)
+        if h.cls == "textwords":
+            return [(Unknown("len:textwords"), st)]
         if h.kind in ("list", "set") and not h.setlike:
             return [(len(h.items), st)]
         if h.kind == "dict" and "__abstract__" not in h.fields:
